@@ -192,4 +192,13 @@ theorem load_reads_only_its_range (r : CachingReader) (s e : Nat) (hse : s ≤ e
     (s ≤ (r.loadBytes s e).2.dev.pos ∧ (r.loadBytes s e).2.dev.pos ≤ e) :=
   loadBytes_extent r s e hse
 
+/-- …and so does a whole query: `section_data` leaves the stream position where it was or inside the
+    section's own range `[sh_offset, sh_offset + sh_size]` (the other single-range queries have the
+    same shape; the per-query list of ranges is compared with the real code's I/O trace). -/
+theorem section_data_reads_only_its_range (s : ElfStream) (sh : SectionHeader) :
+    (s.sectionData sh).2.reader.dev.pos = s.reader.dev.pos ∨
+    (sh.sh_offset ≤ (s.sectionData sh).2.reader.dev.pos ∧
+      (s.sectionData sh).2.reader.dev.pos ≤ sh.sh_offset + sh.sh_size) :=
+  sectionData_extent s sh
+
 end Elf.C08
